@@ -10,6 +10,8 @@ INV = ["ClockDominates", "ClockCovers", "AllReadable"]
 
 
 def classify(event, reason):
+    if event.get("leapt") and ("AllReadable" in reason or event["ev"] == "Edit"):
+        return "far-clock:own-commit-unreadable"
     if event.get("err"):
         return "%s:%s" % (event["ev"], event["err"][:60])
     return "%s:clock-or-state-differs" % event["ev"]
@@ -104,6 +106,9 @@ def run(c):
     unbounded_clock(c)
     clock_vectors(c)
     gb.exhaustive(c, INV + ["MergeTruthful"], restart=True, loaderless=False)
+    r = c.tlc("MC_GitBug", "MC_GitBug_leap.cfg", timeout=600, label="the design's counterexample: after a leap of the edit clock a commit on an older bug is not readable (known finding far-clock)")
+    if r.violated != "AllReadable":
+        raise Broken("MC_GitBug_leap.cfg did not produce the counterexample to AllReadable the known finding far-clock rests on")
     c01.run(c, inv=["ClockDominates", "AllReadable"], bind=(False, False, True), sched_fn=schedules, mut=mutate, cls=classify,
             restart=True, skip_exhaustive=True)
 
